@@ -10,6 +10,7 @@ from hxsim import canon, formgen, scen, seams, seeds
 from hxsim import values as V
 from hxsim.host import EXC_CATALOGUE, World
 from hxsim.stepclock import SimAbort, StepBudgetExceeded, StepClock
+from hxsim.wall import WallBudgetExceeded, wall_limit
 
 PROPERTY = 'C01'
 STREAMS = {
@@ -21,6 +22,7 @@ STREAMS = {
 FORMULAS_PER_SCENARIO = 12
 G5_PER_SCENARIO = 40
 CODES = set(V.ERR_CODES)
+WALL_S = 20.0     # backstop for a single evaluation whose legitimate cost is < 10 ms
 
 
 def config(tier, seed):
@@ -118,7 +120,13 @@ def execute(sc, stats):
         ret = None
         clock.arm(budget=B)
         try:
-            ret = world.evaluate(0, f)
+            with wall_limit(WALL_S):
+                ret = world.evaluate(0, f)
+        except WallBudgetExceeded as e:
+            clock.disarm()
+            wf = e.where or ['?', 0, '?']
+            bad = ('I2_wall_backstop', 'I2w:%s' % wf[2], {'wall_limit_s': WALL_S, 'frame': wf,
+                                                            'note': 'no line events for %.0f s: one C-level call does not come back' % WALL_S})
         except StepBudgetExceeded:
             clock.disarm()
             lf = clock.last_frame or ('?', 0, '?')
@@ -149,6 +157,8 @@ def execute(sc, stats):
             vio.append({'invariant': bad[0], 'sig': bad[1],
                         'detail': dict(bad[2], formula_index=k, formula=f.encode('unicode_escape').decode('ascii')[:300], steps=used)})
             if bad[0].startswith('I2'):
+                if bad[0] == 'I2_wall_backstop':
+                    stats['wall_timeouts'] += 1
                 break   # the parser object may be left mid-parse; stop this scenario here
     stats['steps'] += clock.steps
     for kname, n in world.fired.items():
@@ -168,6 +178,16 @@ def nontrivial(sc, stats):
 
 
 # ---------------------------------------------------------------- shrinking
+def quick_reduce(sc, v):
+    """For wall-clock verdicts (20 s per failing candidate) skip the generic shrinker: keep the one formula."""
+    k = v.get('detail', {}).get('formula_index')
+    d = dict(sc)
+    if k is not None and k < len(sc['formulas']):
+        d['formulas'] = [sc['formulas'][k]]
+        d.pop('gens', None)
+    return d
+
+
 def shrink_candidates(sc):
     forms = sc['formulas']
     if len(forms) > 1:
